@@ -250,6 +250,7 @@ fn c12_same_identity_texts<KK: KeyKind>(ctx: &mut Ctx, scheme: Scheme) {
 
 pub fn c12(ctx: &mut Ctx) {
     let q = ctx.quick();
+    crate::props::concurrency_probe_opts(ctx, true, false, true);
     if !cfg!(miri) && ctx.mine(5) {
         c12_same_identity_texts::<K256K>(ctx, Scheme::Secp);
         c12_same_identity_texts::<ToyK>(ctx, Scheme::Toy);
@@ -1046,6 +1047,9 @@ pub fn c14(ctx: &mut Ctx) {
             ports_kind::<CombK>(ctx, Scheme::Ed, &ports);
         }
     }
+    // what builder methods store reads back as set, also from a builder that is built after every call and that
+    // went through a failed build
+    crate::props_hist::incremental_builder(ctx);
     // all 64 presence combinations of the six address/port keys, RefSig-signed, every reading key type
     let mut n = 0u64;
     for scheme in [Scheme::Secp, Scheme::Ed, Scheme::Toy] {
@@ -1072,7 +1076,12 @@ pub fn c14(ctx: &mut Ctx) {
                     }
                 }
                 // client info and arbitrary raw values under other keys
+                let shapes = gen::client_shapes();
                 match variant % 4 {
+                    _ if mask % 4 == 3 && variant < 2 => {
+                        // every list shape of the client value, spread over the masks
+                        rec.map.insert(b"client".to_vec(), shapes[((mask / 4) as usize * 2 + variant as usize) % shapes.len()].clone());
+                    }
                     1 => {
                         rec.map.insert(b"client".to_vec(), Item::L(vec![Item::S(b"Besu".to_vec()), Item::S(vec![0xff, 0xfe])]));
                     }
@@ -1252,6 +1261,12 @@ fn pool_check<KK: KeyKind>(ctx: &mut Ctx, states: &[Obs], scheme: Scheme, other_
             let (a, b) = (&pool[i], &pool[j]);
             let eq = a.e == b.e;
             eqm[i * n + j] = eq;
+            // the other operator of the same trait, and both through references / tuples (derived impls delegate)
+            #[allow(clippy::nonminimal_bool)]
+            let (ne, ne_ref, ne_tuple) = (a.e != b.e, &a.e != &b.e, (1u8, &a.e) != (1u8, &b.e));
+            if ne == eq || ne_ref == eq || ne_tuple == eq {
+                ctx.violate("C15", "ne-is-not-the-negation-of-eq", &format!("{}-vs-{}", a.tag, b.tag), || format!("a == b is {eq}, a != b is {ne} (by reference {ne_ref}, in a tuple {ne_tuple})"), replay);
+            }
             ctx.count("evaluations");
             ctx.count("c15.pairs");
             let cls = format!("{}-vs-{}", a.tag, b.tag);
@@ -1542,7 +1557,14 @@ pub fn c16(ctx: &mut Ctx) {
         // the other ways a document reaches Deserialize: an owned Value, a reader, an escaped string
         let doc = format!("\"0x{hexs}\"");
         let esc = format!("\"\\u0030x{hexs}\"");
-        let variants: [(&str, Result<NodeId, String>); 4] = [
+        let roomy = {
+            let mut s = String::with_capacity(4096);
+            s.push_str("0x");
+            s.push_str(&hexs);
+            s
+        };
+        let variants: [(&str, Result<NodeId, String>); 5] = [
+            ("from_value-roomy-string", serde_json::from_value::<NodeId>(serde_json::Value::String(roomy.clone())).map_err(|e| e.to_string())),
             ("from_value", serde_json::from_value::<NodeId>(serde_json::Value::String(format!("0x{hexs}"))).map_err(|e| e.to_string())),
             ("from_reader", serde_json::from_reader::<_, NodeId>(doc.as_bytes()).map_err(|e| e.to_string())),
             ("escaped", serde_json::from_str::<NodeId>(&esc).map_err(|e| e.to_string())),
@@ -1773,6 +1795,39 @@ pub fn c17(ctx: &mut Ctx) {
                         let want = if which == "ed" { Some(sig::ed_pub(&second).to_vec()) } else { sig::secp_pub(&second).map(|p| p.to_vec()) };
                         if Some(pk) != want || exp != second {
                             ctx.violate("C17", "public-key-differs-from-independent-derivation", &format!("{which}/back-to-back"), || format!("import of {} right after {}", hex(&second), sh), || json!({"kind": "key-import", "which": which, "hex": hex(&second), "after": sh}));
+                        }
+                    }
+                }
+            }
+        }
+        if i % 64 == 3 && !cfg!(miri) {
+            crate::props::combined_direct(ctx, Scheme::Secp, 7000 + i, &secret[..(i % 33) as usize]);
+            crate::props::combined_direct(ctx, Scheme::Ed, 7000 + i, &secret[..(i % 33) as usize]);
+        }
+        // keys the library GENERATES: the export is 32 bytes whose independent derivation gives the key's public
+        // key, and importing the export gives the same key again
+        if i % 64 == 2 && !cfg!(miri) {
+            for which in ["secp", "ed"] {
+                let r = guard(|| {
+                    let k = if which == "secp" { enr::CombinedKey::generate_secp256k1() } else { enr::CombinedKey::generate_ed25519() };
+                    let exp = k.encode();
+                    let mut again = exp.clone();
+                    let k2 = if which == "secp" { enr::CombinedKey::secp256k1_from_bytes(&mut again) } else { enr::CombinedKey::ed25519_from_bytes(&mut again) };
+                    (k.public().encode(), exp, k2.ok().map(|k2| (k2.public().encode(), k2.encode())))
+                });
+                ctx.count("evaluations");
+                ctx.count("c17.generated-keys");
+                match r {
+                    Err(p) => ctx.violate("C03", "panic", &format!("generate/{}", panic_sig(&p)), || p.clone(), || json!({"kind": "note", "what": "generated key", "which": which})),
+                    Ok((pk, exp, again)) => {
+                        let want = if exp.len() == 32 {
+                            let s32 = u256::from_slice(&exp);
+                            if which == "ed" { Some(sig::ed_pub(&s32).to_vec()) } else { sig::secp_pub(&s32).map(|p| p.to_vec()) }
+                        } else {
+                            None
+                        };
+                        if want.as_ref() != Some(&pk) || again != Some((pk.clone(), exp.clone())) {
+                            ctx.violate("C17", "export-differs-from-import", &format!("{which}/generated"), || format!("generated key: export {} public {}", hex(&exp), hex(&pk)), || json!({"kind": "note", "what": "generated key", "which": which, "export": hex(&exp)}));
                         }
                     }
                 }
